@@ -213,6 +213,39 @@ pub fn run(ctx: &Ctx, acc: &mut Acc) {
         "C06" => super::matrix::run(&Ctx { prop: ctx.prop.clone(), tier: ctx.tier, seed: ctx.seed, shard: ctx.shard, nshards: ctx.nshards, budget: ctx.budget / 2, start: ctx.start }, acc, 0),
         "C07" => super::matrix::run(&Ctx { prop: ctx.prop.clone(), tier: ctx.tier, seed: ctx.seed, shard: ctx.shard, nshards: ctx.nshards, budget: ctx.budget / 2, start: ctx.start }, acc, 1),
         "C08" => super::matrix::run(&Ctx { prop: ctx.prop.clone(), tier: ctx.tier, seed: ctx.seed, shard: ctx.shard, nshards: ctx.nshards, budget: ctx.budget / 2, start: ctx.start }, acc, 2),
+        "C13" => {
+            // directed: L live variables at a print x kinds x printed variable x entry arguments
+            let mut idx = 0usize;
+            'd: for l in 0..=20usize {
+                for kinds in 0..4usize {
+                    for k in 0..=5usize {
+                        for printed in [0usize, l / 2, l.saturating_sub(1)] {
+                            idx += 1;
+                            if idx % ctx.nshards != ctx.shard {
+                                continue;
+                            }
+                            if ctx.start.elapsed() > ctx.budget / 2 {
+                                break 'd;
+                            }
+                            let src = super::directed13::program(l, kinds, printed, k);
+                            let Ok(st) = stages(&src) else {
+                                acc.infra(format!("directed C13 program does not compile (l={l} kinds={kinds} k={k})"));
+                                continue;
+                            };
+                            let args: Vec<i64> = (0..k).map(|i| 10 + i as i64 * 3).collect();
+                            for isa in &isas {
+                                acc.evaluations += 1;
+                                let c = LinCase { linear: &st.linear, args: &args, origin: format!("directed print with {l} live variables kinds={kinds} args={k}"), src: Some(&src) };
+                                if judge_linear(prop, *isa, acc, &c, &EmuConfig::default()) {
+                                    acc.nontrivial(crate::rng::hash_str(&src) ^ *isa as u64);
+                                    acc.count(&format!("directed_live_{l}"));
+                                }
+                            }
+                        }
+                    }
+                }
+            }
+        }
         "C10" => super::loops::run(&Ctx { prop: ctx.prop.clone(), tier: ctx.tier, seed: ctx.seed, shard: ctx.shard, nshards: ctx.nshards, budget: ctx.budget * 2 / 3, start: ctx.start }, acc, &isas),
         _ => {}
     }
